@@ -357,6 +357,20 @@ func (e *Env) eval(x Expr) tv {
 			}
 			return tv{mkslice(sarr(s), Add(soff(s), lo), Sub(hi, lo), Sub(scap(s), lo)), base.t}
 		}
+		if s.Sort == SStr || s.Sort == SString {
+			// s[lo:hi] of a string: the same substr term the code's slicing produces
+			var hi *Term
+			if x.Hi != nil {
+				hi = u.evalTerm(e, x.Hi)
+			} else {
+				hi = u.strLen(s)
+			}
+			if s.Sort == SString {
+				return tv{mk(SString, "str.substr", s, lo, Sub(hi, lo)), base.t}
+			}
+			f := u.ctx.Func("substr", []Sort{SStr, SInt, SInt}, SStr)
+			return tv{App(SStr, f, s, lo, hi), base.t}
+		}
 		e.fail("slice expression on %s", s.Sort)
 	case *ECall:
 		return e.callExpr(x)
@@ -621,7 +635,9 @@ func (e *Env) binary(x *EBin) tv {
 	if name, ok := map[string]string{"&": "bitand", "|": "bitor", "^": "bitxor", "&^": "bitandnot"}[x.Op]; ok && a.Sort == SInt && b.Sort == SInt {
 		// the same uninterpreted bit operations the code's operators denote on mathematical integers
 		f := u.ctx.Func(name, []Sort{SInt, SInt}, SInt)
-		return tv{App(SInt, f, a, b), rt}
+		r := App(SInt, f, a, b)
+		u.bitFacts(name, a, b, r)
+		return tv{r, rt}
 	}
 	e.fail("operator %s unsupported on %s", x.Op, a.Sort)
 	return tv{}
@@ -1241,7 +1257,16 @@ func (e *Env) methodCall(x *ECall) tv {
 }
 
 func (p *Program) methodSig(t types.Type, name string) *types.Signature {
-	obj, _, _ := types.LookupFieldOrMethod(t, true, nil, name)
+	// unexported methods are only found with the package of the receiver type
+	var pkg *types.Package
+	nt := types.Unalias(t)
+	if pe := ptrElem(nt); pe != nil {
+		nt = types.Unalias(pe)
+	}
+	if n, ok := nt.(*types.Named); ok && n.Obj() != nil {
+		pkg = n.Obj().Pkg()
+	}
+	obj, _, _ := types.LookupFieldOrMethod(t, true, pkg, name)
 	if f, ok := obj.(*types.Func); ok {
 		return f.Type().(*types.Signature)
 	}
@@ -1609,6 +1634,17 @@ func (u *Unit) evalLoc(env *Env, x Expr, src string) []frameItem {
 		case "mapof":
 			r := env.eval(x.Args[0])
 			return []frameItem{{Map: "map", Ptr: r.v.(*Term), Src: src}}
+		case "allelems":
+			// allelems(T): every element of every slice / array of element type T
+			// (coarse: used where elements of nested slices are written)
+			tn := exprString(x.Args[0])
+			t := u.prog.parseType(tn, env.pkgPath)
+			if t == nil {
+				env.fail("allelems: unknown type %s", tn)
+			}
+			sort, _ := u.sortOf(t)
+			u.heapGet(env.st, elemMapName(sort), sort)
+			return []frameItem{{Map: elemMapName(sort), Elem: sort, Src: src}}
 		}
 	case *ESel:
 		base := env.eval(x.X)
